@@ -91,8 +91,10 @@ def dec_kw(kw):
     """keyword values in the Python types a caller may legitimately use (recorded under '__ty')"""
     out = dict(kw)
     ty = out.pop('__ty', None) or {}
+    if ty.get('Reconcile') == 'npbool' and 'Reconcile' in out:
+        out['Reconcile'] = np.bool_(out['Reconcile'])
     for key, t in ty.items():
-        if key not in out or out[key] is None or isinstance(out[key], (str, bool)):
+        if key not in out or out[key] is None or isinstance(out[key], (str, bool, np.bool_)):
             continue
         v = out[key]
         if key == 'interval':
@@ -495,6 +497,13 @@ def generate(prop, rng, tier):
             elif r < 0.55:
                 c = _gen_call(rng, wp, pool, allow_auto=True, want_interval=False)
                 c['op'] = 'disorder'
+                if c['form'] == 'pair' and rng.random() < 0.15:
+                    c['sel'] = [c['sel'][0], c['sel'][0]]      # the very same object as both trains
+                if rng.random() < 0.2:
+                    # reconciliation requested explicitly, with the truthy values callers use
+                    c['kw']['Reconcile'] = rng.choice([True, 1])
+                    if rng.random() < 0.5:
+                        c['kw'].setdefault('__ty', {})['Reconcile'] = 'npbool'
                 ops.append(c)
             elif r < 0.75:
                 c = _gen_call(rng, wp, pool, want_interval=True)
@@ -525,7 +534,8 @@ def generate(prop, rng, tier):
             ops.insert(rng.randrange(len(ops) + 1),
                        {'op': 'mutate', 'i': k, 's': new, 'how': rng.choice(['rebind', 'inplace', 'sort'])})
     order_seed = rng.randrange(1 << 30)
-    return {'swarm': {'wp': wp, 'config': config, 'tier': tier, 'order_seed': order_seed},
+    return {'swarm': {'wp': wp, 'config': config, 'tier': tier, 'order_seed': order_seed,
+                      'fail_exc': 'ImportError' if rng.random() < 0.2 else 'ModuleNotFoundError'},
             'init': {'pool': specs}, 'ops': ops, 'faults': {}}
 
 
@@ -533,7 +543,8 @@ def generate(prop, rng, tier):
 # execution
 # ----------------------------------------------------------------------
 def _plan_for(run):
-    return BackendPlan(ALL_COMPILED if run['swarm']['config'] == 'compiled' else ())
+    return BackendPlan(ALL_COMPILED if run['swarm']['config'] == 'compiled' else (),
+                       fail_exc=run['swarm'].get('fail_exc', 'ModuleNotFoundError'))
 
 
 def _strip_iv(kw):
